@@ -309,24 +309,40 @@ def generic_canon(v):
         return "<" + type(v).__name__ + ">"
 
 
+_OPT_RNG = _random_mod.Random(20260930)
+_OPT_SLOTS = {}
+
+
 def _opt_record(fn, args, stream, r):
-    """keep calls of every public function for the `python -O` repetition, stratified by outcome: per function up to sixty calls
-    that succeeded and up to thirty per error class (the first ten of each, then every fifth)"""
+    """keep calls of every public function for the `python -O` repetition, stratified by outcome and spread over the whole run:
+    per function and outcome class the first ten calls, plus a uniform reservoir (eighty for successes, thirty per error
+    class) over all later ones"""
     bucket = (fn, "ok" if r.ok else r.err)
     k = _OPT_COUNT.get(bucket, 0)
     _OPT_COUNT[bucket] = k + 1
-    kept_n = _OPT_COUNT.get(("kept",) + bucket, 0)
-    if kept_n >= (60 if r.ok else 30) or (k >= 10 and k % 5):
-        return
+    cap = 80 if r.ok else 30
+    slot = None
+    if k >= 10:
+        slots = _OPT_SLOTS.setdefault(bucket, [])
+        if len(slots) >= cap:
+            j = _OPT_RNG.randrange(k - 10 + 1)
+            if j >= cap:
+                return
+            slot = slots[j]
     if sum(len(a) for a in args if isinstance(a, (bytes, bytearray, str))) > 20000:
         return      # very large arguments are exercised in this process only
     try:
         kept = copy.deepcopy(list(args))
     except Exception:  # noqa: BLE001
         return
-    _OPT_COUNT[("kept",) + bucket] = kept_n + 1
     outcome = ("ok\t" + generic_canon(r.value)) if r.ok else ("err\t" + r.err)
-    OPT_POOL.append((fn, kept, stream, r.entropy, outcome))
+    item = (fn, kept, stream, r.entropy, outcome)
+    if slot is not None:
+        OPT_POOL[slot] = item
+    else:
+        if k >= 10:
+            _OPT_SLOTS[bucket].append(len(OPT_POOL))
+        OPT_POOL.append(item)
 
 
 _CALLNO = [0]
